@@ -468,7 +468,61 @@ func h3GenReq(r *KRng, tier string, maxBody, n, nb int, smallHdr bool) H3Req {
 	}
 	h.WaitCtx = r.P(0.05) && (q.CancelOn != 0 || q.Abandon != 0)
 	h.GoOn = r.P(0.5)
+	h3CapKeys(&q)
 	return q
+}
+
+// h3MaxKeys: Go maps with more than 8 entries are iterated in an order that depends on the process's hash key (not on
+// the seeded iteration offset), and http3 writes header fields in map order: more distinct names than this in one
+// header map would make the bytes on the wire differ from process to process (replays would not be bit-for-bit).
+const h3MaxKeys = 8
+
+func h3TrimKeys(kvs []H3KV, budget int) []H3KV {
+	seen := map[string]bool{}
+	var out []H3KV
+	for _, kv := range kvs {
+		k := strings.ToLower(kv.K)
+		if !seen[k] && len(seen) >= budget {
+			continue
+		}
+		seen[k] = true
+		out = append(out, kv)
+	}
+	return out
+}
+
+func h3Distinct(kvs []H3KV) int {
+	seen := map[string]bool{}
+	for _, kv := range kvs {
+		seen[strings.ToLower(kv.K)] = true
+	}
+	return len(seen)
+}
+
+func h3CapKeys(q *H3Req) {
+	q.Hdr = h3TrimKeys(q.Hdr, h3MaxKeys)
+	q.Trl = h3TrimKeys(q.Trl, h3MaxKeys)
+	h := &q.H
+	fixed := 3 // Date, Content-Type, Content-Length: set by the handler or added by the server
+	if h.Gzip {
+		fixed++
+	}
+	for _, e := range h.Early {
+		if len(e.Hdr) > 0 {
+			fixed++
+			break
+		}
+	}
+	if h.BadTrl {
+		fixed++
+	}
+	h.UTrl = h3TrimKeys(h.UTrl, 1)
+	fixed += h3Distinct(h.UTrl)
+	if len(h.Trl) > 0 {
+		h.Trl = h3TrimKeys(h.Trl, max(1, min(2, h3MaxKeys-fixed-2)))
+		fixed += 1 + h3Distinct(h.Trl)
+	}
+	h.Hdr = h3TrimKeys(h.Hdr, max(0, h3MaxKeys-fixed))
 }
 
 // ---------------------------------------------------------------- run state
@@ -1130,6 +1184,17 @@ func (x *h3Run) serveHTTP(w http.ResponseWriter, r *http.Request) {
 		x.res.Probe("h:panic-at-end")
 		panic("h3sim: handler panics at the end")
 	}
+	if x.res.KeepLog {
+		var ks []string
+		for k := range hd {
+			ks = append(ks, k)
+		}
+		x.res.Logf("%s: header map order at handler end: %q", what, ks)
+	}
+	if len(hd) > h3MaxKeys {
+		x.res.Probe("h:header-map-above-8-keys")
+		x.res.Logf("%s: %d keys in the response header map", what, len(hd))
+	}
 	so.done = true
 }
 
@@ -1619,6 +1684,13 @@ func runH3(t *testing.T, ksc KScenario, res *KResult) {
 	for _, p := range w.Tap.All {
 		rec := w.Log[p.Dir][p.Ord]
 		res.Logf("  %d %s {%s-> %v}", p.SentNS/1000, p.String(), rec.Fate, rec.Delivered)
+		if res.KeepLog {
+			for k := range p.Frames {
+				if f := &p.Frames[k]; f.Name == "STREAM" && len(f.Data) > 0 {
+					res.Logf("      stream %d [%d+%d] %x", f.StreamID, f.Offset, len(f.Data), f.Data[:min(len(f.Data), 400)])
+				}
+			}
+		}
 	}
 	x.verdict()
 }
